@@ -1422,6 +1422,8 @@ void ex(void)
 		if (ln) {
 			ex_command(ln);
 			reg_put(':', ln, 1);
+		} else if (!xled) {
+			xquit = 1;	/* end of input */
 		}
 		free(ln);
 	}
